@@ -33,7 +33,7 @@ struct Handle { text: Vec<u8>, tree: Tree }
 fn edits_for(text: &[u8]) -> Vec<Edit> {
     let n = text.len();
     let mut v = vec![Edit { start: 0, old_len: 0, ins: b"a;".to_vec() }, Edit { start: n, old_len: 0, ins: b" b;".to_vec() }];
-    if n > 0 { v.push(Edit { start: n / 2, old_len: 1, ins: vec![] }); v.push(Edit { start: n / 2, old_len: 0, ins: b"\n".to_vec() }); v.push(Edit { start: n - 1, old_len: 1, ins: b"x".to_vec() }); v.push(Edit { start: 0, old_len: 1.min(n), ins: b"z".to_vec() }); }
+    if n > 0 { v.push(Edit { start: 0, old_len: 1, ins: vec![] }); v.push(Edit { start: n / 2, old_len: 1, ins: vec![] }); v.push(Edit { start: n / 2, old_len: 0, ins: b"\n".to_vec() }); v.push(Edit { start: n - 1, old_len: 1, ins: b"x".to_vec() }); v.push(Edit { start: 0, old_len: 1.min(n), ins: b"z".to_vec() }); }
     v
 }
 
@@ -68,7 +68,7 @@ fn snapshot(h: &Handle) -> (u64, u64) { (xtree::internal_hash(&h.tree), visible_
 fn visible_hash(t: &Tree) -> u64 {
     let x = XTree::build(t);
     let mut h = 14695981039346656037u64;
-    for n in &x.nodes { for v in [n.kind_id as u64, n.start as u64, n.end as u64, n.sp.row as u64, n.sp.column as u64, n.children.len() as u64, n.has_changes as u64, n.field_id as u64, n.has_error as u64] { h = crate::util::fnv_mix(h, v); } }
+    for n in &x.nodes { for v in [n.kind_id as u64, n.start as u64, n.end as u64, n.sp.row as u64, n.sp.column as u64, n.children.len() as u64, n.has_changes as u64, n.field_id as u64, n.has_error as u64, n.extra as u64, n.named as u64, n.missing as u64, n.is_error as u64] { h = crate::util::fnv_mix(h, v); } }
     h
 }
 extern "C" { fn ts_verif_hash_ref_counts(tree: *const std::ffi::c_void) -> u64; }
@@ -275,7 +275,8 @@ fn c08b(ctx: &Ctx, info: &LangInfo, h: &Harness, bound: usize, res: &mut ShardRe
 
 fn docs_for(name: &str) -> Vec<&'static str> {
     match name {
-        "stmts" => vec!["a; b;", "let a = 1; { b; c; } d;", "a;b;c;d;e;f;g;h;i;j;k;l;m;n;o;p;"],
+        // (last: a multi-line comment token, i.e. a heap leaf, that is a rule member after '@' and an extra without it)
+        "stmts" => vec!["a; b;", "let a = 1; { b; c; } d;", "a;b;c;d;e;f;g;h;i;j;k;l;m;n;o;p;", "@ /*a\nb*/ x;"],
         "arith" => vec!["1+2*3", "f(1,2,3,4,5,6,7,8,9)"],
         "jsonish" => vec!["[1,[2,3],{\"a\":4}]"],
         "pstring" => vec!["%(a(b)c) d"],
